@@ -10,13 +10,23 @@ import sys
 sys.path.insert(0, os.path.dirname(os.path.dirname(os.path.abspath(__file__))))
 os.environ['VERIF_NO_INLINE'] = '1'
 from engine import facts  # noqa
+from engine import generic  # noqa
 
 out = {}
 locs = {}
+cmps = {}
+kargs = {}
 for v in ('A', 'B', 'C', 'D'):
     prog = facts.load(None, v)
     for f in prog.funcs.values():
         out.setdefault(f.file, set()).add(f.name)
+        if f.file.startswith('dbus/') or f.file.startswith('bus/'):
+            cp = generic.comparison_profile(f)
+            if cp:
+                cmps.setdefault(v, {}).setdefault(f.file, {})[f.name] = {k: {cl: len(ls) for cl, ls in c.items()} for k, c in cp.items()}
+            ka = generic.constant_args_profile(f)
+            if ka:
+                kargs.setdefault(v, {}).setdefault(f.file, {})[f.name] = ka
         names = locs.setdefault(f.file, {}).setdefault(f.name, set())
         names.update(p['name'] for p in f.params)
         for b, i, ev in f.events():
@@ -24,6 +34,8 @@ for v in ('A', 'B', 'C', 'D'):
                 names.add(ev['var']['name'])
 json.dump({k: {fn: sorted(ns) for fn, ns in sorted(v.items())} for k, v in sorted(locs.items())},
           open(os.path.join(facts.VERIF, 'engine', 'baseline_locals.json'), 'w'), indent=0)
+json.dump(cmps, open(os.path.join(facts.VERIF, 'engine', 'baseline_comparisons.json'), 'w'), indent=0, sort_keys=True)
+json.dump(kargs, open(os.path.join(facts.VERIF, 'engine', 'baseline_constargs.json'), 'w'), indent=0, sort_keys=True)
 path = os.path.join(facts.VERIF, 'engine', 'baseline_functions.json')
 json.dump({k: sorted(v) for k, v in sorted(out.items())}, open(path, 'w'), indent=0)
 print('%d files, %d functions -> %s' % (len(out), sum(len(v) for v in out.values()), path))
